@@ -6,6 +6,7 @@ import (
 	"path/filepath"
 	"sort"
 	"strings"
+	"time"
 
 	crsctx "github.com/coreruleset/crs-toolchain/v2/context"
 	"github.com/coreruleset/crs-toolchain/v2/regex/parser"
@@ -366,9 +367,90 @@ func C03(r *core.Run) {
 		emit(out)
 	})
 	deaths = append(deaths, d3...)
+	// ---- process identity / environment / time: the real CLI under varied environments must print the same bytes ----
+	type envOut struct {
+		Runs int
+		Bad  []string
+	}
+	envOuts, d4 := core.Parallel(r, "env", fpIn{Dir: dir, Texts: menu, Reps: r.Pick(0, 1)}, r.Workers, func(in fpIn, shard, n int, emit func(envOut)) {
+		wd := filepath.Join(in.Dir, fmt.Sprint("env-", shard))
+		var out envOut
+		alt := filepath.Join(wd, "bin dir")
+		os.MkdirAll(alt, 0o755)
+		bin, _ := os.ReadFile(r.Crs)
+		altBin := filepath.Join(alt, "crs-toolchain")
+		os.WriteFile(altBin, bin, 0o755)
+		variants := []struct {
+			Name string
+			Bin  string
+			Env  []string
+			Sub  bool
+			Wait bool
+		}{
+			{Name: "baseline", Bin: r.Crs},
+			{Name: "GOMAXPROCS=1", Bin: r.Crs, Env: []string{"GOMAXPROCS=1"}},
+			{Name: "locale and time zone", Bin: r.Crs, Env: []string{"TZ=Asia/Tokyo", "LANG=de_DE.UTF-8", "LC_ALL=tr_TR.UTF-8"}},
+			{Name: "user, host, terminal", Bin: r.Crs, Env: []string{"USER=someone", "LOGNAME=someone", "HOSTNAME=elsewhere", "TERM=dumb", "COLUMNS=20", "NO_COLOR="}},
+			{Name: "binary at another path", Bin: altBin},
+			{Name: "relative -d from a subdirectory", Bin: r.Crs, Sub: true},
+			{Name: "one second later", Bin: r.Crs, Wait: true},
+		}
+		idx := 0
+		for li, line := range in.Texts {
+			if in.Reps == 0 && li%3 != 0 {
+				continue // quick tier: every third line of the menu
+			}
+			if idx++; idx%n != shard {
+				continue
+			}
+			text := line + "\nsecond|entry\n"
+			for _, cmd := range [][]string{{"regex", "generate", "123456"}, {"regex", "compare", "123456"}, {"regex", "compare", "--all"}, {"regex", "format", "--all", "--check"}, {"regex", "update", "--all"}, {"regex", "format", "--all"}} {
+				var first string
+				for vi, v := range variants {
+					if v.Wait && idx%8 != 0 {
+						continue
+					}
+					os.RemoveAll(filepath.Join(wd, "crs"))
+					t := core.Tree{}
+					for k, c := range c03Tree() {
+						t["crs/"+k] = c
+					}
+					t["crs/regex-assembly/123456.ra"] = text
+					t["crs/regex-assembly/123457.ra"] = "other\n  file\n"
+					t["crs/rules/REQUEST-123-TEST.conf"] = rulesFile(ruleSpec{ID: "123456", Regex: "OLD"}, ruleSpec{ID: "123457", Regex: "OLD2"})
+					t.Materialise(wd)
+					if v.Wait {
+						time.Sleep(1100 * time.Millisecond)
+					}
+					cwd, args := wd, append([]string{"-d", filepath.Join(wd, "crs")}, cmd...)
+					if v.Sub {
+						cwd, args = filepath.Join(wd, "crs/rules"), append([]string{"-d", ".."}, cmd...)
+					}
+					res := core.RunCLI(v.Bin, cwd, "", v.Env, args...)
+					out.Runs++
+					obs := fmt.Sprint(res.Exit, "\x00", res.Stdout, "\x00", treeHash(core.ReadTree(filepath.Join(wd, "crs"))))
+					if vi == 0 {
+						first = obs
+					} else if obs != first {
+						out.Bad = append(out.Bad, fmt.Sprintf("`%s` on %q: variant %q gives a different result than the baseline (exit/stdout/tree): %q vs %q", strings.Join(cmd, " "), text, v.Name, tailStr(obs, 160), tailStr(first, 160)))
+					}
+				}
+			}
+		}
+		emit(out)
+	})
+	deaths = append(deaths, d4...)
 	if r.IsWorker() {
 		return
 	}
+	envRuns := 0
+	for _, o := range envOuts {
+		envRuns += o.Runs
+		for _, b := range o.Bad {
+			r.Report(core.Violation{Clause: "environment-invariant", Key: b, What: b})
+		}
+	}
+	r.Cov["environment_variation_runs"] = envRuns
 	for _, d := range deaths {
 		r.HarnessError("worker %s/%d %s on %q: %s", d.Stage, d.Shard, d.Kind, d.Case, tailStr(d.Log, 400))
 	}
@@ -431,7 +513,7 @@ func C03(r *core.Run) {
 	r.Cov["l2_multi_outcome"] = len(multi)
 	r.Cov["l2_menu"] = len(menu)
 	r.Cov["distinct_nontrivial"] = l2Cases
-	r.Cov["traces_validated_against_impl"] = fresh
+	r.Cov["traces_validated_against_impl"] = fresh + envRuns
 	r.Cov["exhaustive"] = len(deaths) == 0
 	r.Cov["bound"] = map[string]any{"l1_tokens": maxTok, "l1_deviations": 1, "l2_len_at_dev1": b1, "l2_len_at_dev2": b2, "l2_len_at_dev3": b3}
 	r.Cov["rule"] = "L1: every line of <= l1_tokens tokens over the 16-token directive alphabet parsed alone under every schedule with <= 1 deviation (makes any pattern the first tried); L2: every program of <= k lines over the line menu (static + L1-ambiguous lines) x {generate, format, format --check, update, compare} under every map-iteration schedule with <= d deviations; states = lines + (program, command) cases, transitions = executions; traces_validated = fresh uninstrumented processes whose outcome had to be a member of the explored outcome set"
